@@ -96,6 +96,7 @@ if rc == 0:
         sig = re.search(r"sig=(\S+)", p.stdout)
         res["checks"][pid] = {"rc": p.returncode, "sig": sig.group(1)[:120] if sig and p.returncode == 1 else "", "harness": (re.search(r"HARNESS-ERROR.*", p.stdout) or [""])[0][:160] if p.returncode == 2 else ""}
     sh(["git", "-C", "/repo", "checkout", "--", "."])
+    sh(["git", "-C", "/repo", "clean", "-fdq", "--", "src", "tests"])
 else:
     res["checks"] = {"error": "patch does not apply to /repo: " + o[:300]}
 for f in glob.glob("/tmp/evid.x7/*.json"):
